@@ -358,7 +358,8 @@ impl Cw20Scen {
                     1 => format!("h{}", self.env.block.height + rng.below(6)),
                     _ => format!("t{}", self.env.block.time.nanos() + rng.below(20) * 1_000_000_000),
                 };
-                al.push(format!("{}>{}:{}:{}", o, s, rng.below(500), e));
+                let amt = if rng.chance(1, 4) { 0 } else { rng.below(500) };
+                al.push(format!("{}>{}:{}:{}", o, s, amt, e));
             }
             // pre-0.14 versions (the state really lacks the spender map); newer-than-current ones must be refused
             let ver = *rng.pick(&["0.13.4", "0.9.0", "0.1.0", "0.13.99", "0.13.4", "2.0.1", "3.1.0"]);
